@@ -33,26 +33,37 @@ theorem condFalse_eval (hs : SimpSound s) {c : B} (hc : c.WF) : (s.b (.not (s.b 
 /-- a successor built by `Path.append` on a copy of `st0` is related to the frames `st0` (repositioned) is -/
 theorem R_addCond (hs : SimpSound s) {st0 X : SState} {c1 : B} (hc1 : c1.WF) (hR : R I env code p st0 f)
     (hpc : X.pc = st0.pc) (hstk : X.stack = st0.stack) (hsub : X.subst = st0.subst) (hp : X.path = st0.path)
-    (hm : X.mem = st0.mem) :
+    (hm : X.mem = st0.mem) (hr : X.returndata = st0.returndata := by rfl) :
     R I env code p (addCond s X c1) f :=
   hR.congr (by rw [addCond_pc, hpc]) (by rw [addCond_stack, hstk]) (by rw [addCond_mem, hm])
+    (by rw [addCond_returndata, hr])
     (addCond_substOk hs hc1 (hR.subst.same hsub hp))
+
+/-- the storage maps of a `Path.append` successor are those of the state it was built from -/
+theorem wrel_addCond {w0 w : Evm.World} {this : Nat} {st0 X : SState} {c1 : B}
+    (h : WRel I w0 w this st0.storage st0.transient) (hs : X.storage = st0.storage)
+    (ht : X.transient = st0.transient) :
+    WRel I w0 w this (addCond s X c1).storage (addCond s X c1).transient := by
+  rw [(addCond_storage s X c1).1, (addCond_storage s X c1).2, hs, ht]; exact h
 
 /-- **step_sound.** -/
 theorem step_sound (hs : SimpSound s) (hI : I.Std) (hR : R I env code p st f) (hsat : Sat I st.path)
-    (hl : f.stack.length ≤ 1024) (hmem : cfg.maxMem + 32 ≤ p.memLimit) (hcode : ∀ b ∈ code, b < 256) :
+    (hl : f.stack.length ≤ 1024) (hmem : cfg.maxMem + 32 ≤ p.memLimit) (hcode : ∀ b ∈ code, b < 256)
+    {w0 : Evm.World} (hW : WRel I w0 w f.this st.storage st.transient) :
     (∀ st' ∈ (step s o cfg env code st).next, Sat I st'.path →
-        ∃ f', CReach p w f f' ∧ R I env code p st' f') ∧
+        ∃ w' f', CReach p (w, f) (w', f') ∧ R I env code p st' f' ∧
+          WRel I w0 w' f.this st'.storage st'.transient) ∧
     (∀ e ∈ (step s o cfg env code st).ends, e.tag = .normal → ∀ h, e.out = .halt h →
-        Evm.step p w f = .halt w (haltWith h (e.data.map (·.eval I)))) := by
-  rcases step_corr (w := w) (o := o) (cfg := cfg) hs hI hR hsat hl hmem hcode with
-    ⟨st1, f1, e, _, _, hreach, hR1⟩ | ⟨st0, h0, data, e, hp, hstep⟩ | ⟨e0, e, hp, hnc⟩ |
-    ⟨st0, target, c, e, hc, hp, _, htrue, hbad, hfalse⟩
+        Evm.step p w f = .halt w (haltWith h (e.data.map (·.eval I))) ∧
+        e.st.storage = st.storage ∧ e.st.transient = st.transient) := by
+  rcases step_corr (w := w) (o := o) (cfg := cfg) hs hI hR hsat hl hmem hcode hW with
+    ⟨st1, w1, f1, e, _, _, hreach, hR1, hws⟩ | ⟨st0, h0, data, e, hp, hs0, ht0, hstep⟩ | ⟨e0, e, hp, hnc⟩ |
+    ⟨st0, target, c, e, hc, hp, _, hs0, ht0, htrue, hbad, hfalse⟩
   · rw [e]
     refine ⟨?_, ?_⟩
     · intro st' hm _
       simp only [contOut, List.mem_singleton] at hm
-      subst hm; exact ⟨f1, hreach, hR1⟩
+      subst hm; exact ⟨w1, f1, hreach, hR1, hws w0 hW⟩
     · intro e' hm; simp [contOut] at hm
   · rw [e]
     refine ⟨?_, ?_⟩
@@ -61,7 +72,7 @@ theorem step_sound (hs : SimpSound s) (hI : I.Std) (hR : R I env code p st f) (h
       simp only [haltOut, List.mem_singleton] at hm
       subst hm
       simp only [Out.halt.injEq] at he
-      subst he; exact hstep
+      subst he; exact ⟨hstep, hs0, ht0⟩
   · rw [e]
     refine ⟨?_, ?_⟩
     · intro st' hm; simp at hm
@@ -74,6 +85,7 @@ theorem step_sound (hs : SimpSound s) (hI : I.Std) (hR : R I env code p st f) (h
   · rw [e]
     have hwfT : (s.b c).WF := hs.wfB c hc
     have hwfF : (s.b (.not (s.b c))).WF := hs.wfB _ (by simpa only [B.WF] using hwfT)
+    have hW0 : WRel I w0 w f.this st0.storage st0.transient := by rw [hs0, ht0]; exact hW
     refine ⟨?_, ?_⟩
     · intro st' hm hsat'
       rcases jumpi_next hm with ⟨⟨pc', vis', rfl, hpc⟩, hv⟩ | ⟨vis', rfl⟩
@@ -82,46 +94,48 @@ theorem step_sound (hs : SimpSound s) (hI : I.Std) (hR : R I env code p st f) (h
           exact ((addCond_sat hs hwfT).1 hsat').2
         obtain ⟨f1, f2, hr1, hR1, hr2, hR2⟩ := htrue hct hv
         rcases hpc with rfl | rfl
-        · exact ⟨f1, hr1, R_addCond hs hwfT hR1 rfl rfl rfl rfl rfl⟩
-        · exact ⟨f2, hr2, R_addCond hs hwfT hR2 rfl rfl rfl rfl rfl⟩
+        · exact ⟨w, f1, hr1, R_addCond hs hwfT hR1 rfl rfl rfl rfl rfl, wrel_addCond hW0 rfl rfl⟩
+        · exact ⟨w, f2, hr2, R_addCond hs hwfT hR2 rfl rfl rfl rfl rfl, wrel_addCond hW0 rfl rfl⟩
       · have hcf : c.eval I = false := by
           have := ((addCond_sat hs hwfF).1 hsat').2
           rw [condFalse_eval hs hc] at this
           simpa using this
         obtain ⟨f1, hr1, hR1⟩ := hfalse hcf
-        exact ⟨f1, hr1, R_addCond hs hwfF hR1 rfl rfl rfl rfl rfl⟩
+        exact ⟨w, f1, hr1, R_addCond hs hwfF hR1 rfl rfl rfl rfl rfl, wrel_addCond hW0 rfl rfl⟩
     · intro e' hm hn
       rw [(jumpi_ends hm).1] at hn; cases hn
 
-/-- an end state covers the concrete outcome `h` for the valuation `I`: its path is satisfied and it either reports
-    exactly `h` — kind and returned bytes — untagged, or it is an error report (stuck), or it is tagged (the
-    invalid-destination halt of `jumpi`; an OutOfGas raised by a memory-limit check) -/
-def EndCovers (I : Interp) (h : Evm.Halt) (e : EndState) : Prop :=
+/-- an end state covers the concrete result `r = (world, outcome)` of the valuation `I`: its path is satisfied and it
+    either reports exactly that outcome — kind and returned bytes — untagged, with storage maps describing exactly that
+    world (relative to the start world `w0`, for the account `this`), or it is an error report (stuck), or it is tagged
+    (the invalid-destination halt of `jumpi`; an OutOfGas raised by a memory-limit check) -/
+def EndCovers (I : Interp) (w0 : Evm.World) (this : Nat) (r : Evm.World × Evm.Halt) (e : EndState) : Prop :=
   Sat I e.st.path ∧
-    ((∃ h0, e.out = .halt h0 ∧ haltWith h0 (e.data.map (·.eval I)) = h ∧ e.tag = .normal) ∨
-     (∃ r, e.out = .stuck r) ∨ e.tag ≠ .normal)
+    ((∃ h0, e.out = .halt h0 ∧ haltWith h0 (e.data.map (·.eval I)) = r.2 ∧ e.tag = .normal ∧
+        WRel I w0 r.1 this e.st.storage e.st.transient) ∨
+     (∃ r', e.out = .stuck r') ∨ e.tag ≠ .normal)
 
 /-- **step_complete.** -/
 theorem step_complete (hs : SimpSound s) (ho : OracleSound o) (hI : I.Std) (hR : R I env code p st f)
     (hl : f.stack.length ≤ 1024) (hmem : cfg.maxMem + 32 ≤ p.memLimit) (hcode : ∀ b ∈ code, b < 256)
-    (hsat : Sat I st.path) {w' : Evm.World}
-    {h : Evm.Halt} (hh : Halts p w f (w', h)) :
+    {w0 : Evm.World} (hW : WRel I w0 w f.this st.storage st.transient)
+    (hsat : Sat I st.path) {r : Evm.World × Evm.Halt} (hh : Halts p w f r) :
     (∃ st' ∈ (step s o cfg env code st).next, Sat I st'.path ∧
-        ∃ f', R I env code p st' f' ∧ Halts p w f' (w', h)) ∨
-    (∃ e ∈ (step s o cfg env code st).ends, EndCovers I h e) ∨
+        ∃ w' f', R I env code p st' f' ∧ WRel I w0 w' f.this st'.storage st'.transient ∧ Halts p w' f' r) ∨
+    (∃ e ∈ (step s o cfg env code st).ends, EndCovers I w0 f.this r e) ∨
     (step s o cfg env code st).bounded ≠ [] := by
-  rcases step_corr (w := w) (o := o) (cfg := cfg) hs hI hR hsat hl hmem hcode with
-    ⟨st1, f1, e, hsat1, _, hreach, hR1⟩ | ⟨st0, h0, data, e, hp, hstep⟩ | ⟨e0, e, hp, hnc⟩ |
-    ⟨st0, target, c, e, hc, hp, _, htrue, hbad, hfalse⟩
+  rcases step_corr (w := w) (o := o) (cfg := cfg) hs hI hR hsat hl hmem hcode hW with
+    ⟨st1, w1, f1, e, hsat1, _, hreach, hR1, hws⟩ | ⟨st0, h0, data, e, hp, hs0, ht0, hstep⟩ | ⟨e0, e, hp, hnc⟩ |
+    ⟨st0, target, c, e, hc, hp, _, hs0, ht0, htrue, hbad, hfalse⟩
   · left
     rw [e]
-    exact ⟨st1, by simp [contOut], hsat1, f1, hR1, (halts_reach hreach).1 hh⟩
+    exact ⟨st1, by simp [contOut], hsat1, w1, f1, hR1, hws w0 hW, (halts_reach hreach).1 hh⟩
   · right; left
     have := (halts_halt hstep).1 hh
-    cases this
+    subst this
     rw [e]
     exact ⟨⟨st0, .halt h0, .normal, data⟩, by simp [haltOut], by show Sat I st0.path; rw [hp]; exact hsat,
-      Or.inl ⟨h0, rfl, rfl, rfl⟩⟩
+      Or.inl ⟨h0, rfl, rfl, rfl, by show WRel I w0 w f.this st0.storage st0.transient; rw [hs0, ht0]; exact hW⟩⟩
   · right; left
     rw [e]
     refine ⟨e0, by simp, by rw [hp]; exact hsat, ?_⟩
@@ -132,8 +146,9 @@ theorem step_complete (hs : SimpSound s) (ho : OracleSound o) (hI : I.Std) (hR :
     have hsat0 : Sat I st0.path := by rw [hp]; exact hsat
     have hwfT : (s.b c).WF := hs.wfB c hc
     have hwfF : (s.b (.not (s.b c))).WF := hs.wfB _ (by simpa only [B.WF] using hwfT)
+    have hW0 : WRel I w0 w f.this st0.storage st0.transient := by rw [hs0, ht0]; exact hW
     have htag : ∀ e' ∈ (jumpi s o cfg code st0 target c (st.pc + 1)).ends,
-        e'.tag = .jumpiInvalidSym ∧ e'.st = st0 → EndCovers I h e' := by
+        e'.tag = .jumpiInvalidSym ∧ e'.st = st0 → EndCovers I w0 f.this r e' := by
       intro e' _ ⟨ht, hst⟩
       exact ⟨by rw [hst]; exact hsat0, Or.inr (Or.inr (by rw [ht]; decide))⟩
     cases hcv : c.eval I
@@ -147,7 +162,8 @@ theorem step_complete (hs : SimpSound s) (ho : OracleSound o) (hI : I.Std) (hR :
         ⟨st', hm, vis', rfl⟩ | hb | ⟨e', hm, hte⟩
       · left
         obtain ⟨f1, hr1, hR1⟩ := hfalse hcv
-        refine ⟨_, hm, ?_, f1, R_addCond hs hwfF hR1 rfl rfl rfl rfl rfl, (halts_reach hr1).1 hh⟩
+        refine ⟨_, hm, ?_, w, f1, R_addCond hs hwfF hR1 rfl rfl rfl rfl rfl, wrel_addCond hW0 rfl rfl,
+          (halts_reach hr1).1 hh⟩
         exact (addCond_sat hs hwfF).2 ⟨hsat0, by rw [condFalse_eval hs hc, hcv]; rfl⟩
       · right; right; rw [hb]; simp
       · right; left; exact ⟨e', hm, htag e' hm hte⟩
@@ -164,10 +180,47 @@ theorem step_complete (hs : SimpSound s) (ho : OracleSound o) (hI : I.Std) (hR :
         have hsat' : Sat I (addCond s { st0 with pc := pc', visits := vis' } (s.b c)).path :=
           (addCond_sat hs hwfT).2 ⟨hsat0, by rw [condTrue_eval hs hc, hcv]⟩
         rcases hpc with rfl | rfl
-        · exact ⟨_, hm, hsat', f1, R_addCond hs hwfT hR1 rfl rfl rfl rfl rfl, (halts_reach hr1).1 hh⟩
-        · exact ⟨_, hm, hsat', f2, R_addCond hs hwfT hR2 rfl rfl rfl rfl rfl, (halts_reach hr2).1 hh⟩
+        · exact ⟨_, hm, hsat', w, f1, R_addCond hs hwfT hR1 rfl rfl rfl rfl rfl, wrel_addCond hW0 rfl rfl,
+            (halts_reach hr1).1 hh⟩
+        · exact ⟨_, hm, hsat', w, f2, R_addCond hs hwfT hR2 rfl rfl rfl rfl rfl, wrel_addCond hW0 rfl rfl,
+            (halts_reach hr2).1 hh⟩
       · right; right; rw [hb]; simp
       · right; left; exact ⟨e', hm, htag e' hm hte⟩
+
+/-! ### with the stack limit (`stepL`): no hypothesis on the length of the concrete stack is left -/
+
+theorem stepL_sound (hs : SimpSound s) (hI : I.Std) (hR : R I env code p st f) (hsat : Sat I st.path)
+    (hmem : cfg.maxMem + 32 ≤ p.memLimit) (hcode : ∀ b ∈ code, b < 256)
+    {w0 : Evm.World} (hW : WRel I w0 w f.this st.storage st.transient) :
+    (∀ st' ∈ (stepL s o cfg env code st).next, Sat I st'.path →
+        ∃ w' f', CReach p (w, f) (w', f') ∧ R I env code p st' f' ∧
+          WRel I w0 w' f.this st'.storage st'.transient) ∧
+    (∀ e ∈ (stepL s o cfg env code st).ends, e.tag = .normal → ∀ h, e.out = .halt h →
+        Evm.step p w f = .halt w (haltWith h (e.data.map (·.eval I))) ∧
+        e.st.storage = st.storage ∧ e.st.transient = st.transient) := by
+  unfold stepL
+  split
+  · refine ⟨fun st' hm => by simp [haltOut] at hm, fun e hm hn => ?_⟩
+    simp only [haltOut, List.mem_singleton] at hm
+    subst hm; cases hn
+  · rename_i hl
+    exact step_sound hs hI hR hsat (by rw [← hR.stack.length]; omega) hmem hcode hW
+
+theorem stepL_complete (hs : SimpSound s) (ho : OracleSound o) (hI : I.Std) (hR : R I env code p st f)
+    (hmem : cfg.maxMem + 32 ≤ p.memLimit) (hcode : ∀ b ∈ code, b < 256)
+    {w0 : Evm.World} (hW : WRel I w0 w f.this st.storage st.transient)
+    (hsat : Sat I st.path) {r : Evm.World × Evm.Halt} (hh : Halts p w f r) :
+    (∃ st' ∈ (stepL s o cfg env code st).next, Sat I st'.path ∧
+        ∃ w' f', R I env code p st' f' ∧ WRel I w0 w' f.this st'.storage st'.transient ∧ Halts p w' f' r) ∨
+    (∃ e ∈ (stepL s o cfg env code st).ends, EndCovers I w0 f.this r e) ∨
+    (stepL s o cfg env code st).bounded ≠ [] := by
+  unfold stepL
+  split
+  · right; left
+    exact ⟨⟨st, .halt .stackOverflow, .stackLimit, []⟩, by simp [haltOut], hsat,
+      Or.inr (Or.inr (fun h => Tag.noConfusion h))⟩
+  · rename_i hl
+    exact step_complete hs ho hI hR (by rw [← hR.stack.length]; omega) hmem hcode hW hsat hh
 
 end
 end HalmosVerif.Lemmas.Sevm
